@@ -223,6 +223,15 @@ def _lru_cache(maxsize=128, typed=False):
     return lambda fn: MemoFn(fn, bool(typed))
 
 
+def _int_arg(v):
+    if isinstance(v, bool) or not isinstance(v, int):
+        c = ndarr.concrete_real(v) if isinstance(v, (Fr, Poly)) else None
+        if c is None or c != int(c):
+            raise AnalysisError('integer argument expected, got %r' % (v,))
+        return int(c)
+    return v
+
+
 class NeedsOrdering(AnalysisError):
     """the run sorts symbolic data: decidable only under an ordering hypothesis on the inputs"""
 
@@ -362,7 +371,7 @@ class Models(object):
                      'isscalar', 'clip', 'cumsum', 'mean', 'sort', 'argsort', 'copy', 'meshgrid', 'allclose',
                      'isclose', 'expand_dims', 'broadcast_to', 'array_equal', 'count_nonzero', 'trapz',
                      'nanmedian', 'flip', 'tile', 'repeat', 'unravel_index', 'cumprod', 'take', 'ascontiguousarray',
-                     'column_stack', 'resize', 'swapaxes', 'moveaxis', 'real_if_close', 'ptp', 'vdot', 'putmask', 'issubdtype', 'polyfit', 'polyval', 'fliplr', 'flipud', 'triu', 'tril', 'copyto', 'unique'):
+                     'column_stack', 'resize', 'swapaxes', 'moveaxis', 'real_if_close', 'ptp', 'vdot', 'putmask', 'issubdtype', 'polyfit', 'polyval', 'fliplr', 'flipud', 'triu', 'tril', 'copyto', 'unique', 'tril_indices', 'triu_indices', 'diag_indices'):
             fn = getattr(self, 'np_' + name, None)
             if fn is None:
                 fn = self._unmodelled('np.' + name)
@@ -773,6 +782,39 @@ class Models(object):
         n = _conc_int(n)
         m = n if m is None else _conc_int(m)
         return Arr((n, m), [1 if j - i == k else 0 for i in range(n) for j in range(m)])
+
+    def _tri_indices(self, n, k, m, lower):
+        n = _int_arg(n)
+        m = n if m is None else _int_arg(m)
+        k = _int_arg(k)
+        pairs = [(i, j) for i in range(n) for j in range(m) if (j - i <= k if lower else j - i >= k)]
+        return (Arr((len(pairs),), [i for i, j in pairs], kind='i'), Arr((len(pairs),), [j for i, j in pairs], kind='i'))
+
+    def _tri(self, a, k, lower):
+        a = self.np_asarray(a)
+        if a.ndim != 2:
+            raise AnalysisError('np.triu / tril of a %d-d array' % a.ndim)
+        k = _int_arg(k)
+        rows, cols = a.shape
+        items = a.items()
+        out = [items[i * cols + j] if (j - i <= k if lower else j - i >= k) else 0 for i in range(rows) for j in range(cols)]
+        return Arr(a.shape, out, kind=a.kind)
+
+    def np_triu(self, a, k=0):
+        return self._tri(a, k, False)
+
+    def np_tril(self, a, k=0):
+        return self._tri(a, k, True)
+
+    def np_tril_indices(self, n, k=0, m=None):
+        return self._tri_indices(n, k, m, True)
+
+    def np_triu_indices(self, n, k=0, m=None):
+        return self._tri_indices(n, k, m, False)
+
+    def np_diag_indices(self, n, ndim=2):
+        n = _int_arg(n)
+        return tuple(Arr((n,), list(range(n)), kind='i') for _ in range(_int_arg(ndim)))
 
     def np_diag(self, v, k=0):
         a = self.np_asarray(v)
